@@ -19,6 +19,7 @@ package spy
 //   Removed(s)              SubscribeSignedVAA returned (its deferred removal has run)
 //   FloodInfo(cap, n)       a flood of n = cap(sub.ch)+extra Publish calls follows (cap read from the code under test)
 //   End(nsubs)              the scenario is over and everything owed has been waited for; nsubs = len(spyServer.subs)
+//   Panic(call, value, fn)  a call into the code under test panicked (recovered by the harness; the real process would die)
 //   Timeout(op, ...)        bounded liveness: an operation that the specification says must complete did not
 //                           complete within the deadline; the goroutine dump of the scenario is attached
 //
@@ -36,6 +37,7 @@ import (
 	"os"
 	"regexp"
 	"runtime"
+	"runtime/debug"
 	"sort"
 	"strconv"
 	"strings"
@@ -76,8 +78,9 @@ type shStream struct {
 }
 
 type shPub struct {
-	done bool
-	gid  int64
+	done     bool
+	panicked bool
+	gid      int64
 }
 
 type shRun struct {
@@ -95,6 +98,7 @@ type shRun struct {
 	nsync    int
 	pubGids  []int64
 	timedOut bool
+	panicked bool
 	probe    bool
 }
 
@@ -283,6 +287,52 @@ func (r *shRun) timeout(op string, a map[string]interface{}, role string) {
 	r.timedOut = true
 }
 
+// recovered is deferred around every call into the code under test: a panic there (in the real process it would kill
+// the spy) is logged as a Panic line -- the call, the panic value and the innermost frame inside the package -- which no
+// action of the specification matches.  mark runs under r.mu so that whoever waits for the call stops waiting.
+func (r *shRun) recovered(call string, a map[string]interface{}, mark func()) {
+	pv := recover()
+	if pv == nil {
+		return
+	}
+	stack := string(debug.Stack())
+	fn := ""
+	seenPanic := false
+	for _, ln := range strings.Split(stack, "\n") {
+		if strings.HasPrefix(ln, "panic(") {
+			seenPanic = true
+			continue
+		}
+		if !seenPanic || strings.HasPrefix(ln, "\t") {
+			continue
+		}
+		if i := strings.Index(ln, "cmd/spy."); i >= 0 {
+			name := ln[i+len("cmd/spy."):]
+			if j := strings.LastIndex(name, "("); j > 0 {
+				name = name[:j]
+			}
+			if strings.HasPrefix(name, "(*shStream)") || strings.HasPrefix(name, "(*shRun)") || strings.HasPrefix(name, "sh") {
+				continue
+			}
+			fn = name
+			break
+		}
+	}
+	r.mu.Lock()
+	defer r.mu.Unlock()
+	a["call"] = call
+	a["value"] = fmt.Sprint(pv)
+	a["fn"] = fn
+	if len(stack) > 3000 {
+		stack = stack[:3000]
+	}
+	a["stack"] = stack
+	r.emit("Panic", a)
+	r.panicked = true
+	mark()
+	r.cond.Broadcast()
+}
+
 func (r *shRun) subscribe(name string, filters []interface{}, dup bool) bool {
 	ctx, cancel := context.WithCancel(context.Background())
 	st := &shStream{r: r, name: name, ctx: ctx, cancel: cancel, mode: "ok", clean: true, got: map[string]bool{}}
@@ -316,6 +366,7 @@ func (r *shRun) subscribe(name string, filters []interface{}, dup bool) bool {
 		r.mu.Lock()
 		st.gid = g
 		r.mu.Unlock()
+		defer r.recovered("SubscribeSignedVAA", map[string]interface{}{"s": name}, func() { st.returned = true })
 		err := r.srv.SubscribeSignedVAA(req, st)
 		r.mu.Lock()
 		st.returned = true
@@ -331,8 +382,11 @@ func (r *shRun) subscribe(name string, filters []interface{}, dup bool) bool {
 		return false
 	}
 	r.mu.Lock()
+	defer r.mu.Unlock()
+	if r.panicked {
+		return false
+	}
 	r.emit("Subscribed", map[string]interface{}{"s": name})
-	r.mu.Unlock()
 	return true
 }
 
@@ -348,20 +402,23 @@ func (r *shRun) publish(id string, c int, a string) bool {
 		p.gid = g
 		r.pubGids = append(r.pubGids, g)
 		r.mu.Unlock()
+		defer r.recovered("Publish", map[string]interface{}{"v": id}, func() { p.panicked = true })
 		err := r.srv.Publish(b)
 		r.mu.Lock()
 		p.done = true
 		r.emit("PublishReturned", map[string]interface{}{"v": id, "err": err != nil})
 		r.mu.Unlock()
 	}()
-	if !r.waitFor(func() bool { return p.done }, shDeadline) {
+	if !r.waitFor(func() bool { return p.done || p.panicked }, shDeadline) {
 		r.mu.Lock()
 		role := fmt.Sprintf("publish#%d", len(r.pubGids))
 		r.mu.Unlock()
 		r.timeout("Publish", map[string]interface{}{"v": id}, role)
 		return false
 	}
-	return true
+	r.mu.Lock()
+	defer r.mu.Unlock()
+	return !p.panicked
 }
 
 func (r *shRun) fault(ev, name string) {
